@@ -105,6 +105,9 @@ def run(ctx: Ctx):
     # ---- S4 collation ------------------------------------------------------------------------------------------------
     for name in COLLATE:
         _collate(ctx, pkg.func(f"{MOD}::{name}"), rel)
+
+    # ---- S5 both batching strategies honour the same loader options ----------------------------------------------
+    _strategy_arms(ctx, rel)
     plumbing(ctx, "S1")
     return dict(
         explanation=(
@@ -358,10 +361,62 @@ def _collate(ctx, f, rel):
                        f"from the unzipped items", rel, n.lineno, sample=u(n)[:100])
 
 
+def _strategy_arms(ctx: Ctx, rel: str):
+    """S5: each loader picks its batch sampler in an if/else (length buckets vs plain batches). Every option of the
+    parameter object that the plain arm hands to its sampler must also reach the bucketed arm (incomplete-batch
+    policy, batch size), and the bucket sampler's `drop_incomplete` is bound to `params.drop_last`."""
+    col, pkg, res = ctx.col, ctx.pkg, ctx.res
+    bbs = pkg.cls(f"{MOD}::BucketBatchSampler")
+    binit = res.find_method(bbs, "__init__")
+    binit = binit[0] if isinstance(binit, list) else binit
+    arms_seen = 0
+    per_loader = {}
+    for cname in ("LangDataLoader", "SpectDataLoader"):
+        f = pkg.func(f"{MOD}::{cname}.__init__")
+        where = f"{rel}::{cname}.__init__"
+        pname = None
+        for n in own_nodes(f.node):
+            if not isinstance(n, ast.If) or not n.orelse:
+                continue
+            tb = {t.id for st in n.body for a in ast.walk(st) if isinstance(a, ast.Assign) for t in a.targets if isinstance(t, ast.Name)}
+            te = {t.id for st in n.orelse for a in ast.walk(st) if isinstance(a, ast.Assign) for t in a.targets if isinstance(t, ast.Name)}
+            both = tb & te
+            calls_b = [c for st in n.body for c in ast.walk(st) if isinstance(c, ast.Call) and call_name(c) == "BucketBatchSampler"]
+            if not both or not calls_b:
+                continue
+            arms_seen += 1
+
+            def opts(stmts):
+                out = set()
+                for st in stmts:
+                    for a in ast.walk(st):
+                        if isinstance(a, ast.Attribute) and isinstance(a.value, ast.Name) and isinstance(a.ctx, ast.Load) \
+                                and a.value.id in {p.name for p in f.params}:
+                            out.add(f"{a.value.id}.{a.attr}")
+                return out
+            ob_, oe_ = opts(n.body), opts(n.orelse)
+            per_loader[cname] = (sorted(ob_), sorted(oe_))
+            col.ob("G13", "S5", f"{where}::bucketed-arm-honours-the-plain-arm's-options", oe_ <= ob_,
+                   f"the plain-batch arm passes {sorted(oe_)} to its sampler but the length-bucket arm only reads "
+                   f"{sorted(ob_)}: {sorted(oe_ - ob_)} is silently ignored when num_length_buckets > 1", rel, n.lineno,
+                   sample=dict(bucketed=sorted(ob_), plain=sorted(oe_)))
+            b = bind_args(calls_b[0], binit, True)
+            got = {p.name: u(a) for p, a, _ in b.pairs}
+            di = [p.name for p in binit.params if "drop" in p.name]
+            col.ob("G1", "S5", f"{where}::BucketBatchSampler({di[0] if di else 'drop'}<-drop_last)",
+                   bool(di) and got.get(di[0], "").endswith(".drop_last"),
+                   f"BucketBatchSampler is built with {got}; its incomplete-batch flag must be the loader's drop_last "
+                   f"(left to its default, short leftover batches are delivered although drop_last=True)", rel,
+                   calls_b[0].lineno, sample=got)
+    col.floor("strategy_branches", arms_seen, 2)
+
+
 def _mutants():
     from selftest.mutate import Mutant as M
     D = "_dataloaders.py"
     return [
+        M("lang-buckets-ignore-drop-last", "_dataloaders.py", "batch_sampler = BucketBatchSampler(utt_sampler, idx2bucket, bucket2size, params.drop_last)", "batch_sampler = BucketBatchSampler(utt_sampler, idx2bucket, bucket2size)", "S5"),
+        M("spect-buckets-ignore-drop-last", "_dataloaders.py", "batch_sampler = BucketBatchSampler(utt_sampler, idx2bucket, bucket2size, params.drop_last)", "batch_sampler = BucketBatchSampler(utt_sampler, idx2bucket, bucket2size, False)", "S5", 1),
         M("len-iterates-sampler", D, "for i in batch_sampler.sampler.get_samples_for_epoch(batch_sampler.sampler.epoch))",
           "for i in batch_sampler.sampler)", "counts-the-epoch-iter-will-consume"),
         M("len-next-epoch", D, "batch_sampler.sampler.get_samples_for_epoch(batch_sampler.sampler.epoch)",
